@@ -43,6 +43,8 @@ type Prefill struct {
 	Survivors []uint32 `json:"survivors,omitempty"` // offsets left live afterwards
 	KeepFull  []int    `json:"keep_full,omitempty"` // blocks left completely full except Holes
 	Holes     []uint32 `json:"holes,omitempty"`     // offsets freed inside a KeepFull block
+	BulkCol   string   `json:"bulk_col,omitempty"`  // string column that gets BulkLen pseudo-random bytes in every row of the KeepFull blocks (state > 1 MiB)
+	BulkLen   int      `json:"bulk_len,omitempty"`
 }
 
 // Step is one step of a single-client history.
@@ -71,15 +73,16 @@ type TxnProg struct {
 
 // Op is one operation inside a transaction body.
 type Op struct {
-	Kind   string  `json:"kind"`             // insert | at | range | delete | deleteall | count | agg | ascend | insertkey | upsertkey | querykey | deletekey
-	Fail   bool    `json:"fail,omitempty"`   // insert/upsert callback returns an error after its writes
-	Target Target  `json:"target,omitempty"` // at | delete
-	Key    string  `json:"key,omitempty"`
-	Writes []Write `json:"writes,omitempty"` // performed inside the row callback
-	Filter []FStep `json:"filter,omitempty"` // range | count | agg | deleteall | ascend
-	Col    string  `json:"col,omitempty"`    // agg column / ascend index
-	Limit  int     `json:"limit,omitempty"`  // range: rows that get the writes (0 = all)
-	Yield  bool    `json:"yield,omitempty"`  // harness yield between column reads inside the callback
+	Kind   string     `json:"kind"`             // insert | at | range | delete | deleteall | count | agg | ascend | insertkey | upsertkey | querykey | deletekey
+	Fail   bool       `json:"fail,omitempty"`   // insert/upsert callback returns an error after its writes
+	Target Target     `json:"target,omitempty"` // at | delete
+	Key    string     `json:"key,omitempty"`
+	Writes []Write    `json:"writes,omitempty"` // performed inside the row callback
+	Filter []FStep    `json:"filter,omitempty"` // range | count | agg | deleteall | ascend
+	Col    string     `json:"col,omitempty"`    // agg column / ascend index
+	Limit  int        `json:"limit,omitempty"`  // range: rows that get the writes (0 = all)
+	Yield  bool       `json:"yield,omitempty"`  // harness yield between column reads inside the callback
+	Index  *IndexSpec `json:"index,omitempty"`  // mkindex: CreateIndex on the primary beside the other threads
 }
 
 // Target names a row symbolically so that cases stay meaningful when steps are removed.
